@@ -313,7 +313,7 @@ def check(pid, tier="quick", seed=0, jobs=None, only=None, verbose=False):
     return exit_code
 
 
-LEVELS = {"C15": "exploration"}
+LEVELS = {"C15": "exploration", "C18": "exploration"}
 
 
 def _z3v():
